@@ -34,21 +34,28 @@ def setup():
         if hits:
             print("audit hits:", hits)
             return 1
-        try:
-            common.coq_make(None)
-        except common.BuildError as e:
-            print(e.what)
-            print(e.log)
-            return 1
-        ex = os.path.join(common.COQ, "extract")
-        for f in sorted(os.listdir(ex)):
-            if f.endswith(".v"):
-                try:
-                    common.build_runner(f[:-2])
-                except common.BuildError as e:
-                    print(e.what)
-                    print(e.log)
-                    return 1
+        # only the targets of the registered checks are built: work in progress of
+        # unregistered properties must neither break nor delay the registered checks
+        reg_path = os.path.join(common.VERIF, "registered.json")
+        registered = json.load(open(reg_path)) if os.path.exists(reg_path) else []
+        runners = set()
+        for cid in registered:
+            mod = load(cid)
+            ex = getattr(mod, "EXTRACTS", [cid.lower()])
+            try:
+                common.coq_make([f"theorems/{cid}.vo"] + [f"extract/{e}.vo" for e in ex])
+            except common.BuildError as e:
+                print(e.what)
+                print(e.log)
+                return 1
+            runners.update(ex)
+        for name in sorted(runners):
+            try:
+                common.build_runner(name)
+            except common.BuildError as e:
+                print(e.what)
+                print(e.log)
+                return 1
     print("setup ok")
     return 0
 
